@@ -243,6 +243,20 @@ def check_reprs(t, shape):
                 if m.par[i] is not None:
                     nodes[i].parent = nodes[m.par[i]]
                     anys[i].parent = anys[m.par[i]]
+            # reprs show the CURRENT public attributes sorted by name: add, delete and re-add some after construction
+            attrs = [dict(a) for a in attrs]
+            for i in range(m.n):
+                if (i + rot) % 2 == 0:
+                    for nd in (nodes[i], anys[i]):
+                        nd.zz_late = 1
+                        nd.aa_late = [i]
+                    attrs[i]["zz_late"] = 1
+                    attrs[i]["aa_late"] = [i]
+                    if "b" in attrs[i]:
+                        for nd in (nodes[i], anys[i]):
+                            v = nd.b
+                            del nd.b
+                            nd.b = v
             for i in range(m.n):
                 pub = sorted((k, v) for k, v in attrs[i].items() if not k.startswith("_"))
                 path = sep + sep.join(str(names[v]) for v in m.path(i))
